@@ -17,10 +17,47 @@ def Covered (s : FmState) (self : Addr) (lp : Denom) (us : List Addr) : Prop :=
 /-- snapshots ascending -/
 def Sorted (h : List (Nat × Nat)) : Prop := h.Pairwise (fun a b => a.1 < b.1)
 
+theorem histSet_ne_nil (h : List (Nat × Nat)) (e w : Nat) : histSet h e w ≠ [] := by
+  cases h with
+  | nil => simp [histSet]
+  | cons x xs =>
+    obtain ⟨e', w'⟩ := x
+    simp only [histSet]
+    split
+    · simp
+    · split <;> simp
+
+theorem latestWeight_cons_of_ne_nil (x : Nat × Nat) {l : List (Nat × Nat)} (hl : l ≠ []) :
+    latestWeight (x :: l) = latestWeight l := by
+  cases l with
+  | nil => exact absurd rfl hl
+  | cons y ys => simp [latestWeight, histLatest, List.getLast?_cons_cons]
+
 /-- writing at an epoch not before the last snapshot makes the written value the latest -/
 theorem latest_after_set {h : List (Nat × Nat)} (hs : Sorted h) {e w : Nat}
     (hlast : ∀ x ∈ h, x.1 ≤ e) : latestWeight (histSet h e w) = w := by
-  sorry
+  induction h with
+  | nil => simp [histSet, latestWeight, histLatest]
+  | cons x xs ih =>
+    obtain ⟨e', w'⟩ := x
+    have hx : e' ≤ e := hlast (e', w') (by simp)
+    unfold Sorted at hs
+    rw [List.pairwise_cons] at hs
+    simp only [histSet]
+    split
+    · omega
+    · split
+      next heq =>
+        subst heq
+        cases xs with
+        | nil => simp [latestWeight, histLatest]
+        | cons y ys =>
+          have h1 := hs.1 y (by simp)
+          have h2 := hlast y (by simp)
+          simp at h1; omega
+      next hne =>
+        rw [latestWeight_cons_of_ne_nil _ (histSet_ne_nil _ _ _)]
+        exact ih hs.2 (fun x hx => hlast x (List.mem_cons_of_mem _ hx))
 
 /-- `update_weights` moves the user's and the contract's latest weight by the same amount (fill: +w;
     close: −min(w, user weight)), writes both at epoch+1, and touches nobody else -/
@@ -39,26 +76,223 @@ theorem update_weights_same_delta {s s' : FmState} {env : FmEnv} {recv : Addr} {
         latestWeight (s'.hist env.self lp) =
           latestWeight (s.hist env.self lp) - min w (latestWeight (s.hist recv lp))) ∧
       (∀ a d, (a, d) ≠ (recv, lp) → (a, d) ≠ (env.self, lp) → s'.hist a d = s.hist a d) := by
-  sorry
+  unfold updateWeights at h
+  have hsetr : ∀ X Y, (((s.setHist env.self lp X).setHist recv lp Y).hist recv lp) = Y := by
+    intro X Y; simp [FmState.setHist]
+  have hmid : ∀ X, (s.setHist env.self lp X).hist recv lp = s.hist recv lp := by
+    intro X; simp [FmState.setHist, hne]
+  have hsf : ∀ X Y, (((s.setHist env.self lp X).setHist recv lp Y).hist env.self lp) = X := by
+    intro X Y; simp [FmState.setHist, Ne.symm hne]
+  have hoth : ∀ X Y a d, (a, d) ≠ (recv, lp) → (a, d) ≠ (env.self, lp) →
+      (((s.setHist env.self lp X).setHist recv lp Y).hist a d) = s.hist a d := by
+    intro X Y a d h1 h2
+    simp only [ne_eq, Prod.mk.injEq] at h1 h2
+    simp [FmState.setHist, h1, h2]
+  cases fill
+  · simp only [bind_ok, fit_ok, pure_ok, Bool.false_eq_true, if_false] at h
+    obtain ⟨cur, hc, w, hw, e, ⟨_, rfl⟩, cw', rfl, uw', rfl, rfl⟩ := h
+    obtain ⟨hu1, hc1⟩ := hcur cur hc
+    refine ⟨w, hw, by simp, ?_, hoth _ _⟩
+    intro _
+    rw [hsetr, hmid, hsf, latest_after_set hsu hu1, latest_after_set hsc hc1]
+    exact ⟨rfl, rfl⟩
+  · simp only [bind_ok, fit_ok, pure_ok, if_true, ckAdd_ok] at h
+    obtain ⟨cur, hc, w, hw, e, ⟨_, rfl⟩, cw', ⟨_, rfl⟩, uw', ⟨_, rfl⟩, rfl⟩ := h
+    obtain ⟨hu1, hc1⟩ := hcur cur hc
+    refine ⟨w, hw, ?_, by simp, hoth _ _⟩
+    intro _
+    rw [hsetr, hmid, hsf, latest_after_set hsu hu1, latest_after_set hsc hc1]
+    exact ⟨rfl, rfl⟩
 
-/-- hence the total keeps covering any set of distinct users -/
-theorem update_weights_covered {s s' : FmState} {env : FmEnv} {recv : Addr} {lp : Denom}
+/-! ### sums of latest weights -/
+
+theorem foldl_add_start (l : List Nat) (a : Nat) : l.foldl (· + ·) a = a + l.foldl (· + ·) 0 := by
+  induction l generalizing a with
+  | nil => simp
+  | cons x xs ih => simp only [List.foldl_cons]; rw [ih (a + x), ih (0 + x)]; omega
+
+theorem sumW_cons (f : Addr → Nat) (u : Addr) (us : List Addr) :
+    ((u :: us).map f).foldl (· + ·) 0 = f u + (us.map f).foldl (· + ·) 0 := by
+  simp only [List.map_cons, List.foldl_cons]; rw [foldl_add_start]; omega
+
+theorem sumW_congr {f g : Addr → Nat} {us : List Addr} (h : ∀ a ∈ us, f a = g a) :
+    (us.map f).foldl (· + ·) 0 = (us.map g).foldl (· + ·) 0 := by
+  induction us with
+  | nil => rfl
+  | cons u us ih =>
+    rw [sumW_cons, sumW_cons, h u (by simp), ih (fun a ha => h a (List.mem_cons_of_mem _ ha))]
+
+theorem sumW_update {f g : Addr → Nat} {us : List Addr} {r : Addr} (hnd : us.Nodup) (hr : r ∈ us)
+    (h : ∀ a ∈ us, a ≠ r → f a = g a) :
+    (us.map f).foldl (· + ·) 0 + g r = (us.map g).foldl (· + ·) 0 + f r := by
+  induction us with
+  | nil => simp at hr
+  | cons u us ih =>
+    rw [sumW_cons, sumW_cons]
+    rw [List.nodup_cons] at hnd
+    by_cases hu : u = r
+    · subst hu
+      have : (us.map f).foldl (· + ·) 0 = (us.map g).foldl (· + ·) 0 :=
+        sumW_congr (fun a ha => h a (List.mem_cons_of_mem _ ha) (fun e => hnd.1 (e ▸ ha)))
+      omega
+    · have hr' : r ∈ us := by
+        rcases List.mem_cons.1 hr with e | e
+        · exact absurd e.symm hu
+        · exact e
+      have := ih hnd.2 hr' (fun a ha => h a (List.mem_cons_of_mem _ ha))
+      have := h u (by simp) hu
+      omega
+
+theorem sumW_ge_of_mem (f : Addr → Nat) {us : List Addr} {r : Addr} (hr : r ∈ us) :
+    f r ≤ (us.map f).foldl (· + ·) 0 := by
+  induction us with
+  | nil => simp at hr
+  | cons u us ih =>
+    rw [sumW_cons]
+    rcases List.mem_cons.1 hr with e | e
+    · subst e; omega
+    · have := ih e; omega
+
+/-- hence the total keeps covering any set of distinct users — PARTIAL: the statement without `hin`
+    is false (see `update_weights_covered_counterexample` below): on a close (`fill = false`) of a
+    user who is *not* in `us`, the total drops by that user's share while the sum over `us` stays,
+    so `Covered … us` alone does not survive.  Minimal extra hypothesis: on a close the receiver is
+    one of the users counted (`fill = false → recv ∈ us`); nothing extra is needed for a fill. -/
+theorem update_weights_covered_partial {s s' : FmState} {env : FmEnv} {recv : Addr} {lp : Denom}
     {amount unlocking : Nat} {fill : Bool} {us : List Addr}
     (hnd : us.Nodup) (hself : env.self ∉ us) (hne : recv ≠ env.self)
     (hsorted : ∀ a, Sorted (s.hist a lp))
     (hcur : ∀ cur, fmCurrentEpoch s env = .ok cur → ∀ a, ∀ x ∈ s.hist a lp, x.1 ≤ cur + 1)
     (hc : Covered s env.self lp us)
+    (hin : fill = false → recv ∈ us)
     (h : updateWeights s env recv lp amount unlocking fill = .ok s') :
     Covered s' env.self lp us := by
-  sorry
+  obtain ⟨w, _, hfill, hclose, hoth⟩ := update_weights_same_delta hne (hsorted recv) (hsorted env.self)
+    (fun cur hcu => ⟨hcur cur hcu recv, hcur cur hcu env.self⟩) h
+  unfold Covered at hc ⊢
+  have hsame : ∀ a ∈ us, a ≠ recv →
+      latestWeight (s'.hist a lp) = latestWeight (s.hist a lp) := by
+    intro a ha har
+    rw [hoth a lp (by simp [har]) (by simp; intro e; exact hself (e ▸ ha))]
+  by_cases hr : recv ∈ us
+  · have hupd := sumW_update (f := fun u => latestWeight (s'.hist u lp))
+      (g := fun u => latestWeight (s.hist u lp)) hnd hr hsame
+    have hge := sumW_ge_of_mem (fun u => latestWeight (s.hist u lp)) hr
+    simp only at hupd hge
+    cases fill
+    · obtain ⟨h1, h2⟩ := hclose rfl
+      rw [h2]; rw [h1] at hupd; omega
+    · obtain ⟨h1, h2⟩ := hfill rfl
+      rw [h2]; rw [h1] at hupd; omega
+  · have hf : fill = true := by
+      cases fill
+      · exact absurd (hin rfl) hr
+      · rfl
+    obtain ⟨_, h2⟩ := hfill hf
+    have : (us.map fun u => latestWeight (s'.hist u lp)).foldl (· + ·) 0
+        = (us.map fun u => latestWeight (s.hist u lp)).foldl (· + ·) 0 :=
+      sumW_congr (fun a ha => hsame a ha (fun e => hr (e ▸ ha)))
+    rw [this, h2]; omega
+
+/-! #### counterexample to the unrestricted statement
+  alice 5, bob 3, recorded total 5 (covers `us = [alice]`); bob closes weight 3:
+  total becomes 2 < 5 = alice. -/
+
+def cexCfg : FmConfig := {
+  feeCollector := "fc", epochManager := "em", poolManager := "pm",
+  createFarmFee := ⟨"uom", 0⟩, maxConcurrentFarms := 1, maxFarmEpochBuffer := 1, minUnlocking := 86400,
+  maxUnlocking := 31556926, farmExpirationTime := 0, emergencyUnlockPenalty := 0 }
+def cexS : FmState := {
+  config := cexCfg, owner := { owner := none },
+  hist := fun a d => if d = "lp" then (if a = "alice" then [(0, 5)] else if a = "bob" then [(0, 3)]
+     else if a = "fm" then [(0, 5)] else []) else [] }
+def cexEnv : FmEnv := {
+  self := "fm", nowNs := 0, validAddr := fun _ => true,
+  emConfig := fun _ => some { duration := 86400, genesis := 0 } }
+
+
+theorem cex_run :
+    (updateWeights cexS cexEnv "bob" "lp" 3 86400 false).toOption.map
+      (fun s' => (latestWeight (s'.hist "alice" "lp"), latestWeight (s'.hist "fm" "lp"))) = some (5, 2) := by
+  decide
+
+/-- the original `update_weights_covered` (without `recv ∈ us`) does not hold -/
+theorem update_weights_covered_counterexample :
+    ¬ (∀ {s s' : FmState} {env : FmEnv} {recv : Addr} {lp : Denom}
+        {amount unlocking : Nat} {fill : Bool} {us : List Addr},
+        us.Nodup → env.self ∉ us → recv ≠ env.self →
+        (∀ a, Sorted (s.hist a lp)) →
+        (∀ cur, fmCurrentEpoch s env = .ok cur → ∀ a, ∀ x ∈ s.hist a lp, x.1 ≤ cur + 1) →
+        Covered s env.self lp us →
+        updateWeights s env recv lp amount unlocking fill = .ok s' →
+        Covered s' env.self lp us) := by
+  intro H
+  have hrun := cex_run
+  cases hh : updateWeights cexS cexEnv "bob" "lp" 3 86400 false with
+  | error e => rw [hh] at hrun; simp [Except.toOption] at hrun
+  | ok s' =>
+    rw [hh] at hrun
+    simp only [Except.toOption, Option.map_some, Option.some.injEq, Prod.mk.injEq] at hrun
+    have hcases : ∀ a, cexS.hist a "lp" = [(0, 5)] ∨ cexS.hist a "lp" = [(0, 3)] ∨ cexS.hist a "lp" = [] := by
+      intro a
+      simp only [cexS, if_true]
+      split
+      · exact Or.inl rfl
+      · split
+        · exact Or.inr (Or.inl rfl)
+        · split
+          · exact Or.inl rfl
+          · exact Or.inr (Or.inr rfl)
+    have hcov : Covered (s := s') (self := cexEnv.self) (lp := "lp") (us := ["alice"]) :=
+      H (s := cexS) (env := cexEnv) (recv := "bob") (amount := 3) (unlocking := 86400) (fill := false)
+        (by decide) (by decide) (by decide)
+        (by intro a; rcases hcases a with h | h | h <;> rw [h] <;> simp [Sorted])
+        (by intro cur _ a x hx; rcases hcases a with h | h | h <;> rw [h] at hx <;> simp at hx <;> subst hx <;> simp)
+        (by unfold Covered; decide) hh
+    unfold Covered at hcov
+    simp only [List.map_cons, List.map_nil, List.foldl_cons, List.foldl_nil, Nat.zero_add] at hcov
+    have : cexEnv.self = "fm" := rfl
+    rw [this, hrun.1, hrun.2] at hcov
+    omega
 
 /-- when a user's last open position in an LP token goes away, their weight history for it is
     cleared, and with no open position at all the claim cursor too -/
+theorem syncHistory_false_ok {s s' : FmState} {a : Addr} {lp : Denom} {e : Nat}
+    (h : syncHistory s a lp e false = .ok s') : s' = s.setHist a lp [] := by
+  unfold syncHistory at h
+  simp only [Bool.not_false, if_true] at h
+  split at h
+  · simp [bind, Except.bind] at h
+  · simpa using h
+
 theorem reconcile_clears {s s' : FmState} {env : FmEnv} {recv : Addr} {lp : Denom}
     (h : reconcileUserState s env recv lp = .ok s') :
     ((s.positionsBy recv true).filter (·.lpDenom == lp) = [] → s'.hist recv lp = []) ∧
     (s.positionsBy recv true = [] → s'.lastClaimed recv = none) ∧
     (∀ a d, (a, d) ≠ (recv, lp) → s'.hist a d = s.hist a d) := by
-  sorry
+  unfold reconcileUserState at h
+  simp only at h
+  generalize hs1 : (if (s.positionsBy recv true).isEmpty = true then
+      ({ s with lastClaimed := fun a => if a = recv then none else s.lastClaimed a } : FmState) else s) = s1 at h
+  have hh : s1.hist = s.hist := by subst hs1; split <;> rfl
+  have hl : s.positionsBy recv true = [] → s1.lastClaimed recv = none := by
+    intro he; subst hs1; simp [he]
+  split at h
+  next hc =>
+    simp only [bind_ok] at h
+    obtain ⟨cur, _, h⟩ := h
+    have := syncHistory_false_ok h
+    subst this
+    refine ⟨fun _ => by simp [FmState.setHist], fun he => by simpa [FmState.setHist] using hl he, ?_⟩
+    intro a d had
+    simp only [ne_eq, Prod.mk.injEq] at had
+    simp [FmState.setHist, had, hh]
+  next hc =>
+    simp only [pure_ok] at h
+    subst h
+    refine ⟨?_, hl, fun a d _ => by rw [hh]⟩
+    intro hf
+    simp only [hf, List.isEmpty_nil, Bool.true_and, Bool.not_eq_true', Bool.not_eq_false', List.isEmpty_iff] at hc
+    simpa using hc
 
 end MantraDex.C10H
